@@ -362,6 +362,12 @@ func WalkVersions(ctx context.Context, fileSystem fs.FS, prefix, delimiter, keyM
 			if path < keyMarker {
 				return nil
 			}
+			if path > keyMarker && !d.IsDir() {
+				// the key of the marker is gone: the version id marker
+				// belongs to it, not to the keys that follow
+				pastMarker = true
+				pastVersionIdMarker = true
+			}
 		}
 
 		if d.IsDir() {
